@@ -349,9 +349,11 @@ pub fn goldens(bs: &mut Base) -> Vec<Golden> {
     }
     for idx in 0..2u8 {
         for i in [bs.pos_full, bs.te_full] {
-            let ix = w.collect_reward_ix(i, idx);
-            let n = ix.name;
-            push(&format!("{n}[{idx},{i}]"), ix, pos_auth("position_token_account", true), Some(bs.p_a), Some(i));
+            for v1 in [true, false] {
+                let ix = w.collect_reward_ix_ver(i, idx, v1);
+                let n = ix.name;
+                push(&format!("{n}[{idx},{i}]"), ix, pos_auth("position_token_account", true), Some(bs.p_a), Some(i));
+            }
         }
     }
     // reposition (Pinocchio only)
